@@ -126,15 +126,18 @@ def make_resolver(mod):
 
 def effective_module(mod):
     """The module as the compiler sees it after pre_process_extensibility_implied: with
-    EXTENSIBILITY IMPLIED every SEQUENCE/SET/CHOICE reachable through members (the library does
-    not descend into SEQUENCE OF / SET OF elements, nor into ENUMERATED) has an extension marker.
-    Used for the Coq export only."""
+    EXTENSIBILITY IMPLIED every SEQUENCE/SET/CHOICE reachable through members and through the
+    elements of SEQUENCE OF / SET OF (since the repair a305b52; not ENUMERATED) has an extension
+    marker.  Used for the Coq export only."""
     if not mod.get('ext_implied'):
         return mod
     import copy
     mod = copy.deepcopy(mod)
 
     def visit(t):
+        if t['k'] in ('SEQUENCE OF', 'SET OF'):
+            visit(t['elem'])
+            return
         if t['k'] not in ('SEQUENCE', 'SET', 'CHOICE'):
             return
         ms = list(t['root'])
